@@ -106,8 +106,12 @@ func runC06(c *Ctx, pr *PropertyRun) {
 	pol.Note("layers: root=%s child=%s prop=%s param=%s text=%s comprange=%s proprange=%s", fnKey(f.match), fnKey(f.compFilter), fnKey(f.propFilter), fnKey(f.paramFilter), fnKey(f.textMatch), fnKey(f.compRange), fnKey(f.propRange))
 
 	run := func(r *RuleResult, spec DTXSpec, minRows int) {
+		spec = acceptErrTrue(spec)
 		res := runDTX(c, spec)
 		reportDTX(c, r, spec, res, spec.Name)
+		if yieldsErrTrue(res) {
+			helperErrTrue[spec.Entry] = true
+		}
 		r.Role("decision-table")
 		r.Count("rows_"+spec.Name, res.Runs)
 		if res.Runs < minRows {
@@ -319,6 +323,10 @@ func modelBool(fn *ssa.Function, key func(args []Val) string) ModelFn {
 	}
 }
 
+// helperErrTrue: helpers whose own table showed an error returned together
+// with true (set bottom-up while the layers are run).
+var helperErrTrue = map[*ssa.Function]bool{}
+
 func model3(fn *ssa.Function, key func(args []Val) string) ModelFn {
 	return func(in *Interp, site ssa.CallInstruction, name string, args []Val) (Val, bool) {
 		if name != fullFnName(fn) {
@@ -326,7 +334,7 @@ func model3(fn *ssa.Function, key func(args []Val) string) ModelFn {
 		}
 		k := key(args)
 		in.effect(fn.Name(), site.Pos(), kStr(k))
-		return threeValued(in, k), true
+		return helperValued(in, k, helperErrTrue[fn]), true
 	}
 }
 
@@ -425,7 +433,7 @@ func c06Prop(c *Ctx, f c06Fns) DTXSpec {
 				and(map[bool]int{true: c07True, false: c07False}[env.Bool(fmt.Sprintf("param(filter.ParamFilter[%d].Name)", i))])
 			}
 			if hasRange {
-				and(env.ch.choose("range", 3, func(i int) string { return c07Names[i] }))
+				and(helperOutcome(env, "range"))
 			} else if hasText {
 				and(map[bool]int{true: c07True, false: c07False}[env.Bool("text(comp.Props[filter.Name].Value)")])
 			}
@@ -511,13 +519,13 @@ func c06Child(c *Ctx, f c06Fns) DTXSpec {
 					}
 				}
 				if hasRange {
-					and(env.ch.choose("range("+ck+")", 3, func(i int) string { return c07Names[i] }))
+					and(helperOutcome(env, "range("+ck+")"))
 				}
 				for j := 0; j < nc; j++ {
-					and(env.ch.choose(fmt.Sprintf("sub(filter.Comps[%d].Name,%s)", j, ck), 3, func(i int) string { return c07Names[i] }))
+					and(helperOutcome(env, fmt.Sprintf("sub(filter.Comps[%d].Name,%s)", j, ck)))
 				}
 				for j := 0; j < np; j++ {
-					and(env.ch.choose(fmt.Sprintf("prop(filter.Props[%d].Name,%s)", j, ck), 3, func(i int) string { return c07Names[i] }))
+					and(helperOutcome(env, fmt.Sprintf("prop(filter.Props[%d].Name,%s)", j, ck)))
 				}
 				switch body {
 				case c07Err:
@@ -593,13 +601,13 @@ func c06Root(c *Ctx, root *ssa.Function, f c06Fns) DTXSpec {
 				}
 			}
 			if hasRange {
-				and(env.ch.choose("range", 3, func(i int) string { return c07Names[i] }))
+				and(helperOutcome(env, "range"))
 			}
 			for j := 0; j < nc; j++ {
-				and(env.ch.choose(fmt.Sprintf("sub(query.Comps[%d].Name)", j), 3, func(i int) string { return c07Names[i] }))
+				and(helperOutcome(env, fmt.Sprintf("sub(query.Comps[%d].Name)", j)))
 			}
 			for j := 0; j < np; j++ {
-				and(env.ch.choose(fmt.Sprintf("prop(query.Props[%d].Name)", j), 3, func(i int) string { return c07Names[i] }))
+				and(helperOutcome(env, fmt.Sprintf("prop(query.Props[%d].Name)", j)))
 			}
 			return []string{c07Names[body]}, true
 		},
@@ -630,7 +638,7 @@ func c06Filter(c *Ctx, fn, matchFn *ssa.Function) DTXSpec {
 						id = keyOf(s.F[0].Get())
 					}
 				}
-				return threeValued(in, "match("+id+")"), true
+				return helperValued(in, "match("+id+")", helperErrTrue[matchFn]), true
 			})
 		},
 		Args: func(in *Interp) []Val {
@@ -670,7 +678,7 @@ func c06Filter(c *Ctx, fn, matchFn *ssa.Function) DTXSpec {
 			var out []string
 			for i := 0; i < n; i++ {
 				id := fmt.Sprintf("cos[%d].Path", i)
-				switch env.ch.choose("match("+id+")", 3, func(i int) string { return c07Names[i] }) {
+				switch helperOutcome(env, "match("+id+")") {
 				case c07Err:
 					return []string{"error"}, true
 				case c07True:
